@@ -110,8 +110,9 @@ func kshort(r string) string {
 
 // monLocker interposes on the real locker.
 type monLocker struct {
-	inner locker.Service
-	g     *waitGraph
+	locker.Service // embedded so that methods added to the interface later are passed through (unmonitored)
+	inner          locker.Service
+	g              *waitGraph
 }
 
 func (m *monLocker) maybeYield() {
@@ -233,7 +234,7 @@ func c15Child(cfg Cfg) int {
 		}
 	})
 	g.yieldRand = rand.New(rand.NewSource(cfg.Seed))
-	env, err := NewEnv(run, cfg, "c15", rig.StackOpts{WrapLocker: func(l locker.Service) locker.Service { return &monLocker{inner: l, g: g} }})
+	env, err := NewEnv(run, cfg, "c15", rig.StackOpts{WrapLocker: func(l locker.Service) locker.Service { return &monLocker{Service: l, inner: l, g: g} }})
 	if err != nil {
 		fmt.Println("cannot build env:", err)
 		return 3
